@@ -8,6 +8,7 @@ import DM.Drv.C17
 import DM.Drv.RS
 import DM.Spec.Build
 import DM.Drv.Api
+import DM.Drv.Prune
 open DM.Drv
 
 def dispatch (args : List String) : String :=
@@ -36,6 +37,9 @@ def dispatch (args : List String) : String :=
   | some r => r
   | none =>
   match apiOp args with
+  | some r => r
+  | none =>
+  match pruneOp args with
   | some r => r
   | none => "bad-op"
 
